@@ -629,12 +629,12 @@ class _Counter(Sym):
     clause is evaluated on the real collections.Counter by harness/conformance.py."""
 
     def __init__(self, seq):
-        if not isinstance(seq, SSeq):
-            raise ContractBindError("Counter expected over the list of configured ids")
-        self.seq = seq
+        col = seq._vc_iter() if hasattr(seq, "_vc_iter") else None  # a list, or a generator mapped over a list (index -> element)
+        if col is None or col.sort != I:
+            raise ContractBindError("Counter expected over the sequence of configured ids")
         i, j = bv("i!k", I), bv("j!k", I)
-        inr = lambda k: z3.And(k >= 0, k < seq.n)  # noqa: E731
-        at = lambda k: term(seq.at(k), Id)  # noqa: E731
+        inr = col.pred
+        at = lambda k: term(col.elem(k), Id)  # noqa: E731
         C.assume(z3.ForAll([x], (occurrences(x) >= 1) == z3.Exists([i], z3.And(inr(i), at(i) == x))))
         C.assume(z3.ForAll([x], (occurrences(x) > 1) == z3.Exists([i, j], z3.And(inr(i), inr(j), i != j, at(i) == x, at(j) == x))))
 
